@@ -9,6 +9,7 @@ CONSTANTS
   AnnModes = {"none", "blk"}
   WithProxyDel = TRUE
   CfiLayouts = {"none"}
+  Isa = "x64"
   Emit = TRUE
 INVARIANT Inv
 CHECK_DEADLOCK FALSE
